@@ -19,18 +19,24 @@ var errInjected = errors.New("sim: injected fault")
 
 // injectedErr: the error value an injected fault returns. Applications return all sorts of errors, including the
 // library's own sentinel ErrNotFound, io.EOF or a cancelled context; the value is a function of the site.
-func injectedErr(f *FaultSpec) error {
-	if f == nil {
-		return errInjected
+func injectedErr(s *Sim, f *FaultSpec, salt string) error {
+	if f != nil {
+		switch f.Arg {
+		case "notfound":
+			return pub.ErrNotFound
+		case "eof":
+			return io.EOF
+		case "canceled":
+			return context.Canceled
+		}
+		salt = f.Site + f.Arg
 	}
-	h := 0
-	for _, c := range f.Site + f.Arg {
-		h = h*31 + int(c)
+	h := uint64(1469598103934665603)
+	for _, c := range salt {
+		h = (h ^ uint64(c)) * 1099511628211
 	}
-	if h < 0 {
-		h = -h
-	}
-	switch h % 6 {
+	h ^= s.Spec.MapSeed * 0x9e3779b97f4a7c15
+	switch (h >> 20) % 6 {
 	case 0:
 		return pub.ErrNotFound
 	case 1:
